@@ -1070,7 +1070,6 @@ def exchangeBatch (fo : FilterObj) (extra : List RelID) (add rem : List Comp)
     (rels : List RelID) (vals : Option (List (Comp × Val))) : W Unit := do
   checkLocked
   M.assert (!(add.isEmpty && rem.isEmpty)) .noComponents
-  let l ← lock
   let tables ← getBatchTables fo extra
   let mut relRemoved := false
   let mut bts : List BatchTable := []
@@ -1082,6 +1081,9 @@ def exchangeBatch (fo : FilterObj) (extra : List RelID) (add rem : List Comp)
     let (newT, _, _, rr) ← findOrCreateTable t oldMask add rem rels
     if rr then relRemoved := true
     bts := bts ++ [{ oldT := t, newT, len := T.len }]
+  -- the lock is taken only now (Go: after the planning loop and `registerTargets`): a panic of
+  -- `findOrCreateTable` above must not leave the world locked.  No callback has run so far.
+  let l ← lock
   if !rem.isEmpty then
     let w ← M.get
     if w.obs.hasObservers Ev.onRemoveComponents then
@@ -1161,7 +1163,6 @@ def prepareRelationsMove (oldT : Nat) (oldLen : Nat) (rels : List RelID) : W (Op
 def setRelationsBatch (fo : FilterObj) (extra : List RelID) (rels : List RelID) (withFn : Bool) : W Unit := do
   checkLocked
   M.assert (!rels.isEmpty) .noRelations
-  let l ← lock
   let tables ← getBatchTables fo extra
   let mut moves : List RelMove := []
   for t in tables do
@@ -1170,6 +1171,9 @@ def setRelationsBatch (fo : FilterObj) (extra : List RelID) (rels : List RelID) 
     match ← prepareRelationsMove t n rels with
     | some mv => moves := moves ++ [mv]
     | none => pure ()
+  -- the lock is taken only now (Go: after the planning loop and `registerTargets`): a panic of
+  -- `prepareRelationsMove` above must not leave the world locked.  No callback has run so far.
+  let l ← lock
   let w ← M.get
   if w.obs.hasObservers Ev.onRemoveRelations then
     for mv in moves do
